@@ -2,6 +2,7 @@
 
 model : Names.tla - identifier mangling (keywords, '$'), colliding pairs enumerated by TLC; closure predicate
         NameSites.tla - every site where a C name becomes a Rust identifier, and what the code writes there (lib/c01_sites.py)
+        Overloads.tla - names of overloaded methods (probing), functions (counter) and method externs (two layers), replayed (lib/c01_overloads.py)
         Gen_Options.tla - option vectors of the property's flag space (builder dependencies respected)
 R     : header families (C07 orders, C08 shapes, name families incl. every TLC collision pair, C/C++ feature
         families) x pairwise-covering option vectors x editions -> real CLI -> rustc --edition <e> --crate-type
@@ -281,6 +282,9 @@ def run(res, tier):
     # every site where a C name becomes a Rust identifier (NameSites.tla), replayed on the real bindgen
     import c01_sites
     c01_sites.run(res, tier)
+    # names of overloaded methods / functions for every declaration sequence of Overloads.tla
+    import c01_overloads
+    c01_overloads.run(res, tier)
     opts, nopts = pick_options(res, tier)
     res.add(option_vectors_enumerated=nopts, option_vectors_run=len(opts), mangle_collisions_enumerated=len(pairs))
 
